@@ -378,6 +378,25 @@ theorem analyze_record_only_len (inp : Input) (h : inp.pb = none) (k n : Nat) :
     analyze { inp with cfgNpre := k, nsamp := n } = analyze inp := by
   unfold analyze; simp only [h]
 
+/-! ### request histories: a refused request changes nothing -/
+
+/-- A `SetProjectorsBasis` request that is refused (shapes not compatible) is the identity on the processor: same
+lengths, same loaded model (or none) — hence every later record is analysed exactly as it would have been without
+the request, and a whole history gives the same state with the refused request left out. -/
+theorem C13_refused_model_is_identity (p : Proc) (P B : Mat) (h : setPBok p.nsamp P B = false) :
+    p.step (.load P B) = (p, true) ∧
+    (∀ recNpre signed data, (p.step (.load P B)).1.analyze recNpre signed data = p.analyze recNpre signed data) ∧
+    (∀ qs, p.run (.load P B :: qs) = p.run qs) := by
+  have hs : p.step (.load P B) = (p, true) := by simp [Proc.step, h]
+  refine ⟨hs, ?_, ?_⟩
+  · intro a b c; rw [hs]
+  · intro qs; simp only [Proc.run, hs]
+
+/-- an accepted request installs exactly the requested pair -/
+theorem C13_accepted_model_is_installed (p : Proc) (P B : Mat) (h : setPBok p.nsamp P B = true) :
+    p.step (.load P B) = ({ p with model := some (P, B) }, false) := by
+  simp [Proc.step, h]
+
 /-! ### the oracle and the theorem are about the same thing
 
 `chkC13` (the function that judges the REAL code's output on every run) accepts every output that
